@@ -79,14 +79,14 @@ Proof. intros [_ H] L. now apply H in L as [L _]. Qed.
 Lemma preamble_lookup c tn names vals exprs t :
   preamble flavour c tn names vals exprs = inr t -> lookup tn (c_tables c) = Some t.
 Proof.
-  unfold preamble. destruct (negb (v1_name_ok flavour tn)); [discriminate|].
-  destruct (c_failure c); [discriminate|].
+  unfold preamble. destruct (c_failure c); [discriminate|].
+  destruct (negb (v1_name_ok flavour tn)); [discriminate|].
   destruct (validate_expr_attrs _ _ _); [|discriminate].
   destruct (lookup tn (c_tables c)); [|discriminate]. now intros H; inversion H.
 Qed.
 
-Lemma CInv_put_item c tn it cond names vals :
-  CInv c -> CInv (fst (put_item lang_match flavour c tn it cond names vals)).
+Lemma CInv_put_item c tn it cond names vals ro :
+  CInv c -> CInv (fst (put_item lang_match flavour c tn it cond names vals ro)).
 Proof.
   intros H. unfold put_item.
   destruct (preamble flavour c tn names vals _) as [e|t] eqn:Pr; cbn; auto.
@@ -122,15 +122,15 @@ Lemma CInv_batch_write_one c tn r : CInv c -> CInv (fst (batch_write_one lang_ma
 Proof.
   intros H. unfold batch_write_one.
   destruct r; cbn.
-  - pose proof (CInv_put_item c tn i None [] [] H) as Q.
-    destruct (put_item lang_match flavour c tn i None [] []) as [c' o]; cbn in *.
+  - pose proof (CInv_put_item c tn i None [] [] false H) as Q.
+    destruct (put_item lang_match flavour c tn i None [] [] false) as [c' o]; cbn in *.
     destruct (o_res o) as [|[]| |]; auto.
   - pose proof (CInv_delete_item c tn k None [] [] false H) as Q.
     destruct (delete_item lang_match flavour c tn k None [] [] false) as [c' o]; cbn in *.
     destruct (o_res o) as [|[]| |]; auto.
-  - exact H.
-  - pose proof (CInv_put_item c tn i None [] [] H) as Q.
-    destruct (put_item lang_match flavour c tn i None [] []) as [c' o]; cbn in *.
+  - destruct (c_failure c) as [f|]; cbn; [|exact H]. destruct (failure_err f); exact H.
+  - pose proof (CInv_put_item c tn i None [] [] false H) as Q.
+    destruct (put_item lang_match flavour c tn i None [] [] false) as [c' o]; cbn in *.
     destruct (o_res o) as [|[]| |]; auto.
 Qed.
 
@@ -153,8 +153,8 @@ Qed.
 Lemma CInv_batch_write c reqs : CInv c -> CInv (fst (batch_write lang_match flavour c reqs)).
 Proof.
   intros H. unfold batch_write.
-  destruct (negb (forallb wreq_ok (flat_map snd reqs))); [exact H|].
-  destruct (batch_limit <? List.length (flat_map snd reqs)); [exact H|].
+  destruct (_ && negb (forallb wreq_ok (flat_map snd reqs))); [exact H|].
+  destruct (_ && (batch_limit <? List.length (flat_map snd reqs))); [exact H|].
   destruct (match c_failure c with Some _ => [] | None => flat_map (prevalidate_table c) reqs end); [|exact H].
   pose proof (CInv_batch_write_tables reqs c [] H) as Q.
   destruct (batch_write_tables lang_match flavour c reqs []) as [[c' un] [o|]]; exact Q.
@@ -237,9 +237,11 @@ Lemma fst_run_search c t q : fst (run_search lang_match flavour c t q) = c.
 Proof.
   unfold run_search. destruct (q_index q) as [n|].
   - destruct (negb (mem n (t_indexes t)) && negb match n with [] => true | _ => false end); cbn; auto.
+    destruct (negb (valid_start_key _ _ _)); cbn; auto.
     destruct (check_expressions _ _ _) as [u| | |]; cbn; auto.
     destruct (search_data _ _ _ _) as [[[items lek] f]| | |]; cbn; auto.
-  - destruct (check_expressions _ _ _) as [u| | |]; cbn; auto.
+  - destruct (negb (valid_start_key _ _ _)); cbn; auto.
+    destruct (check_expressions _ _ _) as [u| | |]; cbn; auto.
     destruct (search_data _ _ _ _) as [[[items lek] f]| | |]; cbn; auto.
 Qed.
 
@@ -270,7 +272,8 @@ Proof.
     destruct (validate_expr_attrs _ _ _); cbn; auto.
     destruct (lookup table (c_tables c)); cbn; auto. now rewrite fst_run_search.
   - now apply CInv_batch_write.
-  - unfold batch_get. destruct flavour; cbn; auto. destruct (c_failure c); cbn; auto. destruct (negb _); cbn; auto.
+  - unfold batch_get. destruct flavour; cbn; auto. destruct (c_failure c); cbn; auto.
+    match goal with |- context [match ?l with [] => _ | _ :: _ => _ end] => destruct l end; cbn; auto.
   - destruct (c_failure c); cbn; auto.
   - eapply CInv_tables_only; [reflexivity|exact H].
   - eapply CInv_tables_only; [reflexivity|exact H].
